@@ -70,11 +70,16 @@ def phaseK2 (l : Sorted) : List Param → MState → MState
 def unbalancedPos (side : Side) (l r : Sorted) (existing : Param)
     (convertFrom : List Param) (st : MState) : Except Err (MState × List Param) :=
   let src := match side with | .L => l.src | .R => r.src
+  let oSrc := match side with | .L => r.src | .R => l.src
   let oVa := match side with | .L => r.va | .R => l.va
   match convertFrom with
   | other :: rest =>
+    -- the side the parameter is pulled from is credited too when it has the same name
+    -- (as after `fix:` D16)
     .ok ({ st with pos := st.pos ++ [concile existing other],
-                   src := addSources st.src existing.name [src] }, rest)
+                   src := if existing.name = other.name
+                          then addSources st.src existing.name [src, oSrc]
+                          else addSources st.src existing.name [src] }, rest)
   | [] =>
     if oVa.isSome then
       let st := { st with pos := st.pos ++ [existing],
